@@ -267,6 +267,14 @@ func (c16Engine) Exec(t *testing.T, cc any) *simrt.Result {
 				break
 			}
 		}
+		// ---- progress: at this quiescent point, with every reader active, each
+		// session has taken all of its client's messages and answered what is
+		// awaited (a handler that stops reading its input starves the client)
+		for _, k := range cls {
+			if !k.ScriptDone.Load() {
+				sim.Violate("C16", "session-stalled", map[string]string{"backend": c.Backend}, "session %s: at quiescence (no reader stalled) the client is still waiting to hand over or get answered message #%d of %d; it has %d replies", k.Name, len(k.Sent), len(k.Script), len(k.Got))
+			}
+		}
 		// ---- reply grammar per session, in request order
 		single := len(cls) == 1 && c.Backend == "cache"
 		nReq, nEv := 0, 0
